@@ -277,6 +277,11 @@ func drawHistory(rt *rapid.T, maxSteps, maxGoroutines int) History {
 			c.Expr = rapid.SampledFrom(pool).Draw(rt, label+"Expr").S
 			if c.Fn != "extract" {
 				n := rapid.IntRange(0, 5).Draw(rt, label+"N")
+				if rapid.IntRange(0, 5).Draw(rt, label+"Long") == 0 {
+					// long lists drawn from the small pool: many exact repeats, the shape a list-compacting
+					// or index-building fast path (thresholds of 8 / 16 / 32 / 64 entries) engages on
+					n = rapid.IntRange(6, 100).Draw(rt, label+"LongN")
+				}
 				for i := 0; i < n; i++ {
 					c.List = append(c.List, rapid.SampledFrom(pool).Draw(rt, fmt.Sprintf("%sL%d", label, i)).S)
 				}
@@ -302,7 +307,7 @@ func drawHistory(rt *rapid.T, maxSteps, maxGoroutines int) History {
 func TestC13_Histories(t *testing.T) {
 	cfg := Cfg()
 	maxG := cfg.Pick(16, 64)
-	rec := NewRecorder("C13", "histories", fmt.Sprintf("rapid-generated call histories (3-40 steps over a pool of 2-8 strings drawn from the C04 mix: valid, invalid, compound, raw): new calls of Satisfies / ExtractLicenses / ValidateLicenses, repeats of earlier calls, bursts of 2-%d goroutines each running a batch of earlier calls on the very same argument slices, then a final reverse-order pass; built with -race; oracle: arguments (incl. sentinels in the spare capacity) unchanged, zero bytes on file descriptors 1 and 2, every result identical to the first result of the same call, race detector silent; returned slices are scribbled over by the harness after each call; non-trivial = history has a burst and a repeated call with a multi-element result; distinct by history", maxG))
+	rec := NewRecorder("C13", "histories", fmt.Sprintf("rapid-generated call histories (3-40 steps over a pool of 2-8 strings drawn from the C04 mix: valid, invalid, compound, raw): new calls of Satisfies / ExtractLicenses / ValidateLicenses (lists of 0-5 entries, one call in six with 6-100 entries and hence many exact repeats), repeats of earlier calls, bursts of 2-%d goroutines each running a batch of earlier calls on the very same argument slices, then a final reverse-order pass; built with -race; oracle: arguments (incl. sentinels in the spare capacity) unchanged, zero bytes on file descriptors 1 and 2, every result identical to the first result of the same call, race detector silent; returned slices are scribbled over by the harness after each call; non-trivial = history has a burst and a repeated call with a multi-element result; distinct by history", maxG))
 	defer rec.Finish(t)
 	journal := "journal.json"
 	rec.Rapid(t, func(rt *rapid.T) {
